@@ -43,6 +43,9 @@ def parseOp (s : String) : Option HOp :=
   | ["ack", t, k, p] => (parseMsg3 t k p).map (fun m => .send m true)
   | ["rsend", t, k, p, _] => (parseMsg3 t k p).map (fun m => .raw m false)
   | ["rack", t, k, p, _] => (parseMsg3 t k p).map (fun m => .raw m true)
+  -- records of other writers that omit optional JSON fields: no "ack"/"updated" (decodes as a send), no "payload" (empty)
+  | ["rnoack", t, k, p] => (parseMsg3 t k p).map (fun m => .raw m false)
+  | ["rnopl", t, k, a] => (parseMsg3 t k "-").map (fun m => .raw m (a == "1"))
   | ["bad", _] => some .bad
   | ["eof", p] => p.toInt?.map .eof
   | ["kerr"] => some .kerr
@@ -81,6 +84,9 @@ def check (input impl : String) : Verdict :=
   | hd :: rest =>
     match words hd with
     | ["hist", n] =>
+      -- a "wm …" segment scripts the watermark queries the receiver makes when it builds its assignment; catching up is
+      -- defined by end-of-partition signals alone, so the model ignores it
+      let rest := rest.filter (fun seg => !(words seg).head?.any (· == "wm"))
       match n.toNat?, rest.mapM parseOp with
       | some n, some ops =>
         let evs := ops.map evOf
